@@ -42,6 +42,8 @@ CLAIMS = {
             "HashMap iteration order is not observable through the modelled API.", "4.C11", "exploration"),
     "C14": ("Differential check (round-trip theorems in progress): serde_json export + import + fix_import, and the web service's path Bdd::from(nodes) + Adf::from, at three life points (fresh, after computations, twice), native and bridged; numbering, roots, unique table and variable sets must be identical, all semantics must answer as before, and the model (import_raw / fix_import / from_nodes) must agree.",
             "serde transports the records faithfully (exercised). The CLI's no-overwrite clause is checked under C15.", "4.C14", "exploration"),
+    "C15": ("Differential check against the real binary (composition theorem in progress): the adf-bdd binary built from the working tree is run on random well-formed files x --lib {hybrid, biodivine, naive} x {none, --lx} x random subsets of the ten semantics flags x --heu; exit status and stdout are judged section by section in the documented order against brute-force semantics with labels, and compared with the Coq model of bin/src/main.rs (Front/Cli.v: which flag calls which library function in which order through which dictionary); a malformed stream must give a non-zero exit and no interpretation. The --heu abort found on the pinned tree is repaired in /repo; the seven (mode, flag) pairs that are silently ignored are recorded findings.",
+            "clap is modelled as the record of parsed flags; --an (natural_lexical_cmp), --counter, -v/-q are not modelled.", "4.C15", "exploration"),
 }
 
 NOT_YET = "check not built yet in this round (framework under construction; see DESIGN.md section 8 staging)"
